@@ -85,8 +85,8 @@ PROPS = {
     },
     "C06": {
         "controls": ["FLW-guard"],
-        "rules": [("FLW-1", flw.flw1), ("FLW-10", flw.flw10), ("FLW-11", flw.flw11), ("FLW-8", flw2.flw8)],
-        "explanation": "FLW-10: in input_match_at a match reported after the scan loop (the word ran out mid-match) is conditioned on `state_index`, i.e. only the trailing boundary may be left unmatched (on the pinned tree it was not: `a x $ > e` rewrote `ka`; repaired, F7). FLW-11: for every element kind of SubRule::input_match_item, the number of times `*state_index` is advanced on a path that ends in a successful match is exactly one, counted structurally over the HIR with summaries of the matchers that receive the index (a matcher that advances inside a loop, the ellipsis, is exempt); on the pinned tree syllable variables and syllables inside sets advanced it twice, so the next element was skipped (`%=1 1 q > *`, `{%,x} q > *`; repaired, F8). FLW-8: a restarted or new match attempt never sees bindings of an abandoned one. FLW-1 decides the no-write-without-match clause of C06: the four matchers take the word as &Word and Word/Syllable/Segment are Freeze with no "
+        "rules": [("FLW-1", flw.flw1), ("FLW-10", flw.flw10), ("FLW-11", flw.flw11), ("FLW-12", flw.flw12), ("FLW-8", flw2.flw8)],
+        "explanation": "FLW-10: in input_match_at a match reported after the scan loop (the word ran out mid-match) is conditioned on `state_index`, i.e. only the trailing boundary may be left unmatched (on the pinned tree it was not: `a x $ > e` rewrote `ka`; repaired, F7). FLW-11: for every element kind of SubRule::input_match_item, the number of times `*state_index` is advanced on a path that ends in a successful match is exactly one, counted structurally over the HIR with summaries of the matchers that receive the index (a matcher that advances inside a loop, the ellipsis, is exempt); on the pinned tree syllable variables and syllables inside sets advanced it twice, so the next element was skipped (`%=1 1 q > *`, `{%,x} q > *`; repaired, F8). FLW-12 (context side): no arm of context_match advances the state index (its callers do), and every index-driven loop around context_match — match_before_env, match_after_env, context_match_ellipsis, context_match_option, match_opt_states, insertion_between — advances it exactly once per matched element. FLW-8: a restarted or new match attempt never sees bindings of an abandoned one. FLW-1 decides the no-write-without-match clause of C06: the four matchers take the word as &Word and Word/Syllable/Segment are Freeze with no "
                        "unaudited unsafe in their call tree, so a failed or partial match cannot have altered it; in SubRule::apply the word is replaced only by "
                        "the result of transform, whose call is reachable only on the non-empty edge of the input match and the true edge of "
                        "match_contexts_and_exceptions (MIR dominance + reachability avoiding the guard); in the insertion loop `insert` is reachable only after "
@@ -211,13 +211,13 @@ PROPS = {
         "assumptions": ["doc/doc.md keeps its '### Inbuilt Aliases' code blocks", "a helper that tests both members of a pair satisfies SYN-1 by itself"],
     },
     "C03": {
-        "rules": [("ENV-1", env.env1), ("ENV-2", env.env2), ("ENV-3", env.env3), ("PAN-5", pan.pan5)],
+        "rules": [("ENV-1", env.env1), ("ENV-2", env.env2), ("ENV-3", env.env3), ("FLW-12", flw.flw12), ("PAN-5", pan.pan5)],
         "explanation": "Decides the plumbing clauses of C03 ('whose left neighbours match the context and do not match the exception', 'scanning left to right'), not the rewrite semantics. "
                        "ENV-1: in SubRule::match_contexts_and_exceptions, for contexts and for exceptions alike, the before-half is a reversed copy of the pair's first element, matched by "
                        "match_before_env on `word.reverse()` at `start_pos.reversed(word)`; the after-half is the pair's second element, matched by match_after_env on the word at end_pos; "
                        "both halves are required (&&) and an empty half is vacuous; is_context is true for contexts and false for exceptions; without contexts the context counts as matched; "
                        "the verdict is `!exception_matched && context_matched`. ENV-2: match_before_env matches with forwards = false, match_after_env with forwards = true, and each of the "
-                       "18 calls between context matchers hands the caller's own `forwards` on. ENV-3 (sibling agreement): the state loops of match_before_env and match_after_env are the same code up to local names and differ in exactly one boolean (the direction flag) — how a failing state clears the verdict and when the loop stops is the same on both sides of the target. PAN-5: the cursor handed back to the scan loop has been advanced past the rewrite.",
+                       "18 calls between context matchers hands the caller's own `forwards` on. ENV-3 (sibling agreement): the state loops of match_before_env and match_after_env are the same code up to local names and differ in exactly one boolean (the direction flag) — how a failing state clears the verdict and when the loop stops is the same on both sides of the target. FLW-12: every context element is consumed exactly once (no arm of context_match advances the state index, every index-driven loop around it advances it once per matched element). PAN-5: the cursor handed back to the scan loop has been advanced past the rewrite.",
         "does_not_decide": "that the matchers accept exactly the segments the elements denote, the position arithmetic (SegPos increment / reversed), long segments, the order of already-rewritten "
                            "versus not-yet-rewritten neighbours: the equality with a reference interpreter is a behavioural statement outside static reach.",
         "assumptions": ["Word::reverse and SegPos::reversed are mutually consistent (not checked)"],
